@@ -17,6 +17,7 @@ pub static META: Meta = Meta {
         "engine errors on a generated program are counted as rejected, not as violations",
     ],
     floor: 30,
+    watchdog: (0, 0),
 };
 
 pub fn classify(p: &GenProgram, kind: &str) -> String {
